@@ -60,6 +60,9 @@ type renderer struct {
 	pkg     *types.Package
 	imports map[string]string // path -> alias
 	notes   []string
+	rep     *FuncReport
+	vals    map[string]string
+	stubs   bool
 }
 
 func (rd *renderer) qual(p *types.Package) string {
@@ -202,6 +205,14 @@ func (rd *renderer) render(t types.Type, v *sx) (string, bool) {
 		if n, ok := sxInt(v); ok && n.Sign() == 0 {
 			return "nil", true
 		}
+		if pt, ok := t.Underlying().(*types.Pointer); ok {
+			if nt, ok := pt.Elem().(*types.Named); ok {
+				if _, isS := nt.Underlying().(*types.Struct); isS && !strings.Contains(nt.Obj().Pkg().Path(), "_go_proto") {
+					rd.notes = append(rd.notes, "a non-nil *"+nt.Obj().Name()+" parameter is replayed as a pointer to a zero value (the heap the model chose for it is not reproduced)")
+					return "&" + rd.typeStr(nt) + "{}", true
+				}
+			}
+		}
 		return "", false
 	case so == "Bool":
 		if v.atom == "true" || v.atom == "false" {
@@ -223,6 +234,9 @@ func (rd *renderer) render(t types.Type, v *sx) (string, bool) {
 	case so == "Any":
 		if v.atom == "nil_any" {
 			return "nil", true
+		}
+		if nt, ok := types.Unalias(t).(*types.Named); ok && nt.Obj().Name() == "Expression" && strings.HasSuffix(nt.Obj().Pkg().Path(), "/fhirpath/internal/expr") && rd.rep != nil {
+			return rd.stubExpr(nt, v)
 		}
 		h := v.head()
 		if ct, ok := rd.e.Sorts.ctorType[h]; ok && len(v.kids) == 2 {
@@ -347,7 +361,7 @@ func renderAndRun(e *Engine, rep *FuncReport, ob *Obligation, vals map[string]st
 		res.Note = "closures and synthetic functions are not replayed directly"
 		return res
 	}
-	rd := &renderer{e: e, pkg: pk.Pkg, imports: map[string]string{}}
+	rd := &renderer{e: e, pkg: pk.Pkg, imports: map[string]string{}, rep: rep, vals: vals}
 	var args []string
 	for i, p := range fn.Params {
 		pv, ok := vals[rep.Params[i].Term]
@@ -355,13 +369,16 @@ func renderAndRun(e *Engine, rep *FuncReport, ob *Obligation, vals map[string]st
 			res.Note = "no model value for parameter " + rep.Params[i].Name
 			return res
 		}
-		tree, _ := parseSx(sexprTokens(pv), 0)
+		tree := parseModelValue(pv)
 		gs, ok := rd.render(p.Type(), tree)
 		if !ok {
 			res.Note = fmt.Sprintf("model value of parameter %s (type %s) cannot be rendered as a Go expression: %s", rep.Params[i].Name, shortName(p.Type()), truncateStr(pv, 300))
 			return res
 		}
 		args = append(args, gs)
+	}
+	if fn.Signature.Variadic() && len(args) > 0 {
+		args[len(args)-1] += "..."
 	}
 	// call expression
 	var call string
@@ -422,9 +439,13 @@ func renderAndRun(e *Engine, rep *FuncReport, ob *Obligation, vals map[string]st
 		fmt.Fprintf(&body, "\tfmt.Printf(\"VERIF-RESULT %d val %%#v\\n\", %s)\n", i, printable(rt, fmt.Sprintf("r%d", i), rd))
 	}
 	body.WriteString("}\n")
+	stubDecl := ""
+	if rd.stubs {
+		stubDecl = rd.stubDecls()
+	}
 	var imps []string
 	for p, a := range rd.imports {
-		if !strings.Contains(body.String(), a+".") {
+		if !strings.Contains(body.String(), a+".") && !strings.Contains(stubDecl, a+".") {
 			continue
 		}
 		imps = append(imps, fmt.Sprintf("\t%s %q\n", a, p))
@@ -434,6 +455,9 @@ func renderAndRun(e *Engine, rep *FuncReport, ob *Obligation, vals map[string]st
 		b.WriteString(im)
 	}
 	b.WriteString(")\n\n")
+	if rd.stubs {
+		b.WriteString(stubDecl)
+	}
 	b.WriteString(body.String())
 	res.Test = b.String()
 	rel, _ := filepath.Rel(e.RepoDir, filepath.Dir(e.Prog.Fset.Position(fn.Pos()).Filename))
@@ -723,4 +747,145 @@ func goElemToSMT(e *Engine, et types.Type, s string) (string, bool) {
 		}
 	}
 	return "", false
+}
+
+// stubExpr renders an expression node the model chose as a stub whose Evaluate answers, call
+// by call, with what the model says the dynamic Evaluate calls on that node returned.
+func (rd *renderer) stubExpr(nt *types.Named, v *sx) (string, bool) {
+	me := v.String()
+	var rs []string
+	for _, dc := range rd.rep.DynCalls {
+		if !strings.HasSuffix(dc.Key, ".Expression.Evaluate") || len(dc.Results) != 2 {
+			continue
+		}
+		rv, ok := rd.vals[dc.Recv]
+		if !ok {
+			continue
+		}
+		rt := parseModelValue(rv)
+		if rt.String() != me {
+			continue
+		}
+		cv, ok1 := rd.vals[dc.Results[0]]
+		ev, ok2 := rd.vals[dc.Results[1]]
+		if !ok1 || !ok2 {
+			continue
+		}
+		sysPkg := rd.sysPackage()
+		if sysPkg == nil {
+			return "", false
+		}
+		collT := sysPkg.Scope().Lookup("Collection").Type()
+		ct := parseModelValue(cv)
+		cs, ok := rd.render(collT, ct)
+		if !ok {
+			// the model's result for this call cannot be rendered: answer with an empty
+			// collection (the replay then decides nothing by itself; only a confirmed
+			// failure on the real code counts)
+			rd.notes = append(rd.notes, "a sub-expression result chosen by the model could not be rendered: "+truncateStr(cv, 200))
+			cs = rd.typeStr(collT) + "{}"
+		}
+		es := "nil"
+		if n, ok := sxInt(mustSx(ev)); !ok || n.Sign() != 0 {
+			es = "errors.New(\"verif: error chosen by the model\")"
+			cs = "nil"
+		}
+		rs = append(rs, fmt.Sprintf("{%s, %s}", cs, es))
+	}
+	rd.stubs = true
+	return fmt.Sprintf("&verifStubExpr{rs: []verifStubRes{%s}}", strings.Join(rs, ", ")), true
+}
+
+func mustSx(s string) *sx {
+	return parseModelValue(s)
+}
+
+func (rd *renderer) sysPackage() *types.Package {
+	for path, sp := range rd.e.SSAPkgs {
+		if strings.HasSuffix(path, "/fhirpath/system") {
+			return sp.Pkg
+		}
+	}
+	return nil
+}
+
+func (rd *renderer) exprPackage() *types.Package {
+	for path, sp := range rd.e.SSAPkgs {
+		if strings.HasSuffix(path, "/fhirpath/internal/expr") {
+			return sp.Pkg
+		}
+	}
+	return nil
+}
+
+// stubDecls: the stub expression type used by replay tests.
+func (rd *renderer) stubDecls() string {
+	sp, ep := rd.sysPackage(), rd.exprPackage()
+	if sp == nil || ep == nil {
+		return ""
+	}
+	sq, eq := rd.qual(sp), rd.qual(ep)
+	if sq != "" {
+		sq += "."
+	}
+	if eq != "" {
+		eq += "."
+	}
+	return fmt.Sprintf(`type verifStubRes struct {
+	c %sCollection
+	e error
+}
+
+// verifStubExpr answers the n-th Evaluate call with the n-th recorded result (the last one
+// again when there are more calls than recorded results; empty when none was recorded).
+type verifStubExpr struct {
+	rs []verifStubRes
+	n  int
+}
+
+func (s *verifStubExpr) Evaluate(*%sContext, %sCollection) (%sCollection, error) {
+	if len(s.rs) == 0 {
+		return %sCollection{}, nil
+	}
+	i := s.n
+	if i >= len(s.rs) {
+		i = len(s.rs) - 1
+	}
+	s.n++
+	return s.rs[i].c, s.rs[i].e
+}
+
+`, sq, eq, sq, sq, sq)
+}
+
+// expandLets substitutes the (let ((x v) ...) body) bindings z3 uses in model values.
+func expandLets(t *sx, env map[string]*sx) *sx {
+	if t.atom != "" {
+		if v, ok := env[t.atom]; ok {
+			return v
+		}
+		return t
+	}
+	if t.head() == "let" && len(t.kids) == 3 {
+		ne := map[string]*sx{}
+		for k, v := range env {
+			ne[k] = v
+		}
+		for _, b := range t.kids[1].kids {
+			if len(b.kids) == 2 && b.kids[0].atom != "" {
+				ne[b.kids[0].atom] = expandLets(b.kids[1], ne)
+			}
+		}
+		return expandLets(t.kids[2], ne)
+	}
+	out := &sx{}
+	for _, k := range t.kids {
+		out.kids = append(out.kids, expandLets(k, env))
+	}
+	return out
+}
+
+func parseModelValue(s string) *sx {
+	t, _ := parseSx(sexprTokens(s), 0)
+	return expandLets(t, map[string]*sx{})
 }
